@@ -41,6 +41,23 @@ def check(repo: Repo, rep: Report) -> None:
     rep.rule("P3-stops-after-raise", "an exception from the action stops the periodic work and propagates", floor=2)
     rep.rule("P4-period", "next tick after (period - elapsed); first tick after one period", floor=3)
     rep.rule("P5-timers", "timer tick counting; interval = timer(p, p)", floor=3)
+    # elapsed = (clock after the action) - (clock captured before it): the compensation has the right sign
+    rep.rule("P8-elapsed-sign", "PeriodicScheduler: the time the action took is `scheduler.now - <now captured before the action>`", floor=1)
+    pp = repo.fn("reactivex/scheduler/periodicscheduler.py", "PeriodicScheduler.schedule_periodic")
+    nsub = 0
+    for g_ in pp.walk():
+        if not g_.is_func:
+            continue
+        caps = {u(n_.targets[0] if isinstance(n_, ast.Assign) else n_.target) for n_ in g_.direct_nodes() if isinstance(n_, (ast.Assign, ast.AnnAssign)) and n_.value is not None
+                and isinstance(n_.value, ast.Attribute) and n_.value.attr == "now"}
+        for n_ in g_.direct_nodes():
+            if isinstance(n_, ast.BinOp) and isinstance(n_.op, ast.Sub) and (isinstance(n_.left, ast.Attribute) and n_.left.attr == "now" or isinstance(n_.right, ast.Attribute) and n_.right.attr == "now") \
+                    and (u(n_.left) in caps or u(n_.right) in caps):
+                nsub += 1
+                rep.ob("P8-elapsed-sign", g_, f"{g_.qual}: `{short(n_)}`", isinstance(n_.left, ast.Attribute) and n_.left.attr == "now" and u(n_.right) in caps,
+                       "the elapsed time of the action is computed as (before - after): the next tick is scheduled a period PLUS the action's duration "
+                       "later instead of a period minus it, and the ticks leave the grid")
+    rep.ob("P8-elapsed-sign", pp, f"{nsub} elapsed-time subtraction(s) found", nsub >= 1, "the periodic wrapper no longer measures how long the action took")
     # timer(d, p), d != p: ticks stay on the grid d + k*p: the next due time is the PREVIOUS due time plus the period
     rep.rule("P7-grid", "observable_timer_duetime_and_period: next due = previous due + period (re-based on now only when that is already past)", floor=2)
     ta = repo.fn("reactivex/observable/timer.py", "observable_timer_duetime_and_period.subscribe.action")
